@@ -29,6 +29,7 @@ COMBINATORS = ['Struct', 'Const', 'Padding', 'Array', 'GreedyRange', 'FixedSized
 
 
 def install(it, m):
+    from . import construct_parse  # noqa: installs the parse methods on CDecl
     for a in ATOMS:
         m.ns[a] = CDecl(a)
     for c in COMBINATORS:
